@@ -155,18 +155,38 @@ fn run_body(ctx: TestContext, body: &[Value]) {
 fn main() {
     let path = std::env::args().nth(1).expect("scenario file");
     let sc: Value = serde_json::from_str(&std::fs::read_to_string(path).unwrap()).unwrap();
-    PANIC_AT.with(|p| p.set(sc["panic_at"].as_i64().unwrap_or(-1)));
-    let root = sc["root"].clone();
-    let r = std::panic::catch_unwind(std::panic::AssertUnwindSafe(|| {
-        let body = root["body"].as_array().cloned().unwrap_or_default();
-        TestRunner::default().build(build_config(&root["cfg"]), |ctx| run_body(ctx, &body));
-    }));
-    let outcome = match r {
-        Ok(()) => json!({"outcome": "ok"}),
-        Err(e) => {
-            let msg = e.downcast_ref::<String>().cloned().or_else(|| e.downcast_ref::<&str>().map(|s| s.to_string())).unwrap_or_default();
-            json!({"outcome": "panic", "message": msg.chars().take(300).collect::<String>()})
-        }
-    };
+    // The scenario runs on a thread named like a (long) test function, as under the Rust test
+    // harness: anything derived from the thread name must not make resource names collide.
+    let name = sc["thread_name"].as_str().unwrap_or("tests::a_rather_long_integration_test_name_that_describes_the_scenario_in_great_detail_0123456789").to_string();
+    let handle = std::thread::Builder::new().name(name).spawn(move || run(sc)).expect("spawn scenario thread");
+    let outcome = handle.join().unwrap_or_else(|_| json!({"outcome": "panic", "message": "scenario thread panicked outside catch_unwind"}));
     println!("{outcome}");
+}
+
+fn run(sc: Value) -> Value {
+    PANIC_AT.with(|p| p.set(sc["panic_at"].as_i64().unwrap_or(-1)));
+    // one root build, or several in the same process ("roots"): the outcome reported is the last one's;
+    // a panic of an earlier root is caught like the test harness does for separate #[test]s
+    let roots: Vec<Value> = match sc["roots"].as_array() {
+        Some(r) => r.clone(),
+        None => vec![sc["root"].clone()],
+    };
+    let mut outcome = json!({"outcome": "ok"});
+    let mut outcomes = Vec::new();
+    for root in roots {
+        let r = std::panic::catch_unwind(std::panic::AssertUnwindSafe(|| {
+            let body = root["body"].as_array().cloned().unwrap_or_default();
+            TestRunner::default().build(build_config(&root["cfg"]), |ctx| run_body(ctx, &body));
+        }));
+        outcome = match r {
+            Ok(()) => json!({"outcome": "ok"}),
+            Err(e) => {
+                let msg = e.downcast_ref::<String>().cloned().or_else(|| e.downcast_ref::<&str>().map(|s| s.to_string())).unwrap_or_default();
+                json!({"outcome": "panic", "message": msg.chars().take(300).collect::<String>()})
+            }
+        };
+        outcomes.push(outcome["outcome"].clone());
+    }
+    outcome["outcomes"] = json!(outcomes);
+    outcome
 }
